@@ -13,7 +13,7 @@ one() {
   if ! git -C "$w" apply "$d/patch.diff" 2>/dev/null; then echo "$id: patch does not apply"; git -C /repo worktree remove --force "$w"; return; fi
   out=$(VERIF_REPO="$w" ./vcheck "$prop" --tier quick 2>&1)
   git -C /repo worktree remove --force "$w"
-  if echo "$out" | grep -q "^VIOLATION property=$prop"; then echo "$id: CAUGHT ($(echo "$out" | grep -c '^VIOLATION') violation lines) $(echo "$out" | grep '^VIOLATION' | head -2 | sed 's/.*replay=//' | tr '\n' ' ' | cut -c1-150)";
+  if echo "$out" | grep -q "^VIOLATION property=$prop"; then echo "$id: CAUGHT ($(echo "$out" | grep -c '^VIOLATION') violation lines, $(echo "$out" | grep '^VIOLATION' | grep -vc 'no-failing-input-found') with a failing input) $(echo "$out" | grep '^VIOLATION' | head -2 | sed 's/.*replay=//' | tr '\n' ' ' | cut -c1-150)";
   elif echo "$out" | grep -q "CHECKER-ERROR"; then echo "$id: CHECKER-ERROR"; echo "$out" | grep CHECKER-ERROR | head -2 | cut -c1-200;
   else echo "$id: MISSED"; echo "$out" | grep UNDECIDED | head -3 | cut -c1-200; fi
 }
